@@ -163,6 +163,7 @@ func checkC07(c *Ctx) {
 	c07LexSuperset(c, accepted)
 	c07EscapeRange(c)
 	c07QuoteOpen(c)
+	c07RawQuote(c)
 	c07Plumbing(c)
 	c07Numbers(c)
 	c07Keywords(c)
@@ -937,4 +938,119 @@ func c07NumbersSpec(f *ssa.Function) (okInt, okFloat, okIntVal, okFloatVal bool)
 		okFloatVal, okFloat = false, false
 	}
 	return
+}
+
+// c07RawQuote: a back-quoted identifier is raw — its value is the text between the quotes, no escape is decoded.
+// Rule, in parser.Unquote: the branch taken when the opening byte s[0] equals '`' never reaches a call that decodes
+// escapes (unquoteChar, directly or through helpers), and its successful returns hand back a slice of the argument.
+// Decided on the control-flow graph: the successor of the comparison's '`' edge must not reach a decoding call.
+func c07RawQuote(c *Ctx) {
+	r, t := c.R, c.T
+	uq := t.Func(pParser, "Unquote")
+	dec := t.Func(pParser, "unquoteChar")
+	if uq == nil || dec == nil || len(uq.Params) == 0 {
+		r.Undecided("RAW-QUOTE", "parser.Unquote / parser.unquoteChar", "pkg/parser/strutil.go", "unresolved anchor")
+		return
+	}
+	r.Fn(relName(uq), relName(dec))
+	memo := map[*ssa.Function]int{}
+	var decodes func(f *ssa.Function) bool
+	decodes = func(f *ssa.Function) bool {
+		if f == dec {
+			return true
+		}
+		if f == nil || len(f.Blocks) == 0 || f.Pkg != uq.Pkg || memo[f] == 3 {
+			return false
+		}
+		if memo[f] != 0 {
+			return memo[f] == 2
+		}
+		memo[f] = 3
+		res := false
+		allInstrs(f, func(in ssa.Instruction) {
+			if cal := calleeOf(in); cal != nil && cal != f && decodes(cal) {
+				res = true
+			}
+		})
+		memo[f] = 1
+		if res {
+			memo[f] = 2
+		}
+		return res
+	}
+	// the opening byte: s[0] of the parameter
+	isOpen := func(v ssa.Value) bool {
+		switch x := v.(type) {
+		case *ssa.Lookup:
+			i, ok := constInt(x.Index)
+			return ok && i == 0 && rootOf(x.X) == ssa.Value(uq.Params[0])
+		case *ssa.Index:
+			i, ok := constInt(x.Index)
+			return ok && i == 0 && rootOf(x.X) == ssa.Value(uq.Params[0])
+		}
+		return false
+	}
+	nCmp := 0
+	for _, b := range uq.Blocks {
+		iff, ok := b.Instrs[len(b.Instrs)-1].(*ssa.If)
+		if !ok {
+			continue
+		}
+		bo, ok := iff.Cond.(*ssa.BinOp)
+		if !ok || (bo.Op != token.EQL && bo.Op != token.NEQ) {
+			continue
+		}
+		var k int64
+		var isK bool
+		switch {
+		case isOpen(bo.X):
+			k, isK = constInt(bo.Y)
+		case isOpen(bo.Y):
+			k, isK = constInt(bo.X)
+		}
+		if !isK || k != '`' {
+			continue
+		}
+		nCmp++
+		raw := b.Succs[0]
+		if bo.Op == token.NEQ {
+			raw = b.Succs[1]
+		}
+		// everything reachable from the raw branch
+		seen := map[*ssa.BasicBlock]bool{}
+		st := []*ssa.BasicBlock{raw}
+		bad, okRet, nRet := "", true, 0
+		for len(st) > 0 {
+			x := st[len(st)-1]
+			st = st[:len(st)-1]
+			if seen[x] {
+				continue
+			}
+			seen[x] = true
+			for _, in := range x.Instrs {
+				if cal := calleeOf(in); cal != nil && decodes(cal) {
+					bad += fmt.Sprintf(" %s at %s", cal.Name(), t.Pos(in.Pos()))
+				}
+				if ret, isR := in.(*ssa.Return); isR && len(ret.Results) == 2 && isNilConst(ret.Results[1]) {
+					nRet++
+					if rootOf(ret.Results[0]) != ssa.Value(uq.Params[0]) {
+						if _, isLoad := ret.Results[0].(*ssa.UnOp); !isLoad { // named result slot: decided by the decode rule
+							okRet = false
+						}
+					}
+				}
+			}
+			st = append(st, x.Succs...)
+		}
+		why := fmt.Sprintf("%d successful return(s) on the back-quote branch, none after a decoding call", nRet)
+		if bad != "" {
+			why = "the back-quote branch reaches the escape decoder:" + bad + " — `a\\tb` would denote a TAB, not backslash-t"
+		} else if !okRet {
+			why = "a successful return on the back-quote branch hands back something other than the text between the quotes"
+		}
+		r.Ob("RAW-QUOTE", "parser.Unquote: a back-quoted literal is its raw text", t.Pos(bo.Pos()), bad == "" && okRet && nRet > 0, why)
+	}
+	if nCmp == 0 {
+		r.Ob("RAW-QUOTE", "parser.Unquote: a back-quoted literal is its raw text", t.Pos(uq.Pos()), false, "no comparison of the opening byte with '`' found: back-quoted literals are not told apart")
+	}
 }
